@@ -43,7 +43,7 @@ def rawOf (bs : List UInt8) : List PP.Tok :=
 
 def errName : PP.Err → String
   | .fuel => "fuel" | .scan => "scan" | .defineName => "defineName"
-  | .paramAfterEllipsis => "paramAfterEllipsis" | .paramComma => "paramComma" | .paramName => "paramName"
+  | .paramAfterEllipsis => "paramAfterEllipsis" | .paramComma => "paramComma" | .paramName => "paramName" | .dupParam => "dupParam"
   | .hashhash => "hashhash" | .vaArgs => "vaArgs" | .hashIdent => "hashIdent" | .hashNotParam => "hashNotParam"
   | .redefinition => "redefinition" | .undefName => "undefName" | .dirName => "dirName"
   | .dirUnimpl d => "dirUnimpl." ++ hexOf d | .dirInvalid => "dirInvalid" | .lineNumber => "lineNumber"
